@@ -283,11 +283,31 @@ G_SYS = [(-200, 200, 0, 0), (-100, 100, 0, 0), (-200, 200, -60, 60)]
 G_EVENTS = (
     [("p", g, 3, "a", None, 50, 100) for g in (1, 2)]
     + [("p", g, 2, "b", 150, None, None) for g in (1, 2)]
-    + [("p", 1, 1, "c", -100, None, None)]
-    + [("t", 30.25), ("t", 31.0), ("s", 0), ("s", 1)]
+    + [("p", 1, 1, "c", 20, None, None)]
+    + [("p", 1, 2, "b", -50, -20, -120)]  # actor b replaces its proposal by one whose own bounds are inverted
+    + [("t", 30.25), ("t", 31.0), ("s", 0), ("s", 1), ("s", 2)]
 )
 MAX_AGE_G = 60.75  # a maximum age with a fractional part: two 30.25 s steps stay below it, 30.25 s + 31 s do not
-G_EVENTS_T = G_EVENTS + [("p", 2, 1, "c", -100, None, None), ("s", 2), ("t", 1.0)]
+G_EVENTS_T = G_EVENTS + [("p", 2, 1, "c", -100, None, None), ("t", 1.0)]
+
+
+def _bw(b):
+    return None if b is None else (None if b.lower is None else b.lower.as_watts(), None if b.upper is None else b.upper.as_watts())
+
+
+def _status_bounds(m, g, sysb):
+    r = m.get_status(frozenset({g}), 1, sb(*sysb))
+    return [_bw(r._inclusion_bounds), _bw(r._exclusion_bounds)]
+
+
+def _fresh_status_bounds(live, g, sysb):
+    m = Matryoshka(max_proposal_age=timedelta(seconds=MAX_AGE))
+    for pr in live:
+        m.calculate_target_power(frozenset({g}), Proposal(
+            source_id=pr[1], preferred_power=None if pr[2] is None else W(pr[2]),
+            bounds=timeseries.Bounds(None if pr[3] is None else W(pr[3]), None if pr[4] is None else W(pr[4])),
+            component_ids=frozenset({g}), priority=pr[0], creation_time=0.0, set_operating_point=False), sb(*sysb))
+    return _status_bounds(m, g, sysb)
 
 
 def e2_groups(args) -> Acc:
@@ -319,6 +339,8 @@ def e2_groups(args) -> Acc:
             m.drop_old_proposals(now)
         else:
             si = ev[1]
+            for g in (1, 2):  # what the power manager does on a bounds update
+                m.calculate_target_power(frozenset({g}), None, sb(*G_SYS[si]))
         return (m, now, si)
 
     def group_hist(hist, g):
@@ -333,12 +355,19 @@ def e2_groups(args) -> Acc:
         for g in (1, 2):
             live, _ = ref.live_set(group_hist(hist, g), MAX_AGE_G)
             exp = target_of(live, sysb) if live else None
-            if ev[0] == "p" and ev[1] == g and live:
+            if ((ev[0] == "p" and ev[1] == g) or ev[0] == "s") and live:
                 acc.clauses["stored_target_is_current_target"] += 1
                 stv = m.get_target_power(frozenset({g}))
                 stv = None if stv is None else stv.as_watts()
                 if stv != exp:
                     viol.append(("stored_target_is_current_target", {"group": g, "stored": stv, "fresh": exp, "live": live, "system": list(sysb)}))
+            # the bounds reported to a priority-1 actor depend only on the live proposals too
+            acc.clauses["reported_bounds_depend_only_on_live_set"] += 1
+            got_b = _status_bounds(m, g, sysb)
+            exp_b = _fresh_status_bounds(live, g, sysb)
+            if got_b != exp_b:
+                viol.append(("reported_bounds_depend_only_on_live_set", {"group": g, "reported": got_b, "fresh": exp_b, "live": live,
+                                                                         "system": list(sysb)}))
             probe = copy.deepcopy(m)
             t = probe.calculate_target_power(frozenset({g}), None, sb(*sysb), must_return_power=True)
             target = None if t is None else t.as_watts()
@@ -397,13 +426,18 @@ def replay_groups(hist):
             m.drop_old_proposals(now)
         else:
             si = ev[1]
+            for g in (1, 2):
+                m.calculate_target_power(frozenset({g}), None, sb(*G_SYS[si]))
     sysb = G_SYS[si]
     ev = hist[-1]
     for g in (1, 2):
         gh = tuple(("p", e[2], e[3], e[4], e[5], e[6]) if e[0] == "p" else e for e in hist if (e[0] == "p" and e[1] == g) or e[0] == "t")
         live, _ = ref.live_set(gh, MAX_AGE_G)
         exp = target_of(live, sysb) if live else None
-        if ev[0] == "p" and ev[1] == g and live:
+        if _status_bounds(m, g, sysb) != _fresh_status_bounds(live, g, sysb):
+            acc_v.append(("reported_bounds_depend_only_on_live_set", {"group": g, "reported": _status_bounds(m, g, sysb),
+                                                                      "fresh": _fresh_status_bounds(live, g, sysb)}))
+        if ((ev[0] == "p" and ev[1] == g) or ev[0] == "s") and live:
             stv = m.get_target_power(frozenset({g}))
             stv = None if stv is None else stv.as_watts()
             if stv != exp:
@@ -458,9 +492,11 @@ def run(tier: str, seed: int, workers: int):
     acc = pmap_acc(_dispatch, shards, workers)
     meta = {
         "rule": "E2c (groups): every sequence to depth 5 (quick) / 6 over {actor a / b proposes for component group 1 or 2, actor c for "
-        "group 1, +30.25 s, +31 s (maximum proposal age 60.75 s), the system bounds passed with the calls switch between 2-3 shapes} on ONE Matryoshka, without "
-        "state merging: after every proposal the stored target of its group, and after every event the recomputed target of both "
-        "groups, equal what a fresh instance computes from that group's live proposals under the bounds in force.  "
+        "group 1, actor b replaces its proposal by one with inverted bounds, +30.25 s, +31 s (maximum proposal age 60.75 s), a system-bounds "
+        "update to one of 3 shapes (two differ only in the exclusion zone) after which every group is re-evaluated without a proposal} on ONE "
+        "Matryoshka, without state merging: after every proposal and bounds update the stored target, and after every event the recomputed "
+        "target and the bounds reported to a priority-1 actor (get_status), of both groups equal what a fresh instance computes from that "
+        "group's live proposals under the bounds in force.  "
         "E3: 8 system-bounds shapes x all combinations of up to 3 (quick) / 4 (thorough) proposals (priorities with a tie, "
         "preferred power and lower/upper bounds from menus on, inside and outside every interval edge, incl. None, inverted and "
         "mutually incompatible bounds); non-trivial = >= 2 proposals whose bounds conflict.  E2: BFS over histories of "
